@@ -11,6 +11,7 @@ from __future__ import annotations
 
 import ast
 import itertools
+import itertools
 from dataclasses import dataclass, field
 from typing import Any, Callable
 
@@ -482,6 +483,9 @@ class Interp:
                 try:
                     v = self.fold.name(m2, n2)
                 except NotConst as ex:
+                    mm = self.repo.modules.get(m2) if isinstance(m2, str) else m2
+                    if mm is not None and n2 in mm.assigns:
+                        return self.eval(mm.assigns[n2], Env(mm, {}, None))
                     raise Unsupported(f"global {name}: {ex}")
                 return self.from_folded(v)
             if kind == "external":
@@ -567,10 +571,12 @@ class Interp:
         if isinstance(o, _Pos):
             return getattr(o, attr)
         if isinstance(o, _External):
+            if f"{o.name}.{attr}" in _STDLIB_CONSTS:
+                return _STDLIB_CONSTS[f"{o.name}.{attr}"]
             return _External(f"{o.name}.{attr}")
         if isinstance(o, (list, dict, set, str, tuple)):
             if attr in ("append", "extend", "insert", "pop", "remove", "copy", "index", "count", "get", "keys", "values", "items", "add", "update",
-                        "setdefault", "clear", "startswith", "endswith", "join", "split", "strip", "lstrip", "rstrip", "replace", "format", "lower", "upper"):
+                        "setdefault", "clear", "splitlines", "isdigit", "partition", "rpartition", "find", "startswith", "endswith", "join", "split", "strip", "lstrip", "rstrip", "replace", "format", "lower", "upper"):
                 return _BoundNative(o, attr)
             raise Unsupported(f"native attribute {attr}")
         if isinstance(o, PyExc):
@@ -641,6 +647,8 @@ class Interp:
                 return _External("logger")
             if fv.name.startswith("logger") or fv.name.startswith("logging"):
                 return None
+            if fv.name in _STDLIB_FUNCS:
+                return _STDLIB_FUNCS[fv.name](*args, **kwargs)
             raise Unsupported(f"external call {fv.name}")
         if isinstance(fv, _CtxAccessor):
             return fv(*args)
@@ -960,7 +968,20 @@ def _b_len(x: Any) -> int:
     raise Unsupported("len of abstract value")
 
 
+_STDLIB_CONSTS = {"string.digits": "0123456789", "string.ascii_letters": "abcdefghijklmnopqrstuvwxyzABCDEFGHIJKLMNOPQRSTUVWXYZ",
+                  "string.hexdigits": "0123456789abcdefABCDEF", "string.whitespace": " \t\n\r\x0b\x0c"}
+
+def _consume(it: Any = (), maxlen: Any = None) -> Any:
+    out = list(it)
+    return out if maxlen is None else out[len(out) - maxlen:] if maxlen else []
+
+
+# pure standard-library callables whose semantics are fixed by the language, not by the repository
+_STDLIB_FUNCS: dict[str, Any] = {"itertools.takewhile": lambda f, it: list(itertools.takewhile(f, it)), "itertools.count": itertools.count,
+                                 "itertools.chain": lambda *a: list(itertools.chain(*a)), "collections.deque": _consume, "deque": _consume}
+
 _BUILTINS: dict[str, Any] = {
+    "next": next,
     "len": _b_len,
     "isinstance": object(),
     "str": object(),
